@@ -1148,17 +1148,13 @@ impl JsValue {
         }
 
         // 3. Let int be the mathematical value whose sign is the sign of number and whose magnitude is floor(abs(ℝ(number))).
-        let int = number.abs().floor().copysign(number) as i64;
-
         // 4. Let int8bit be int modulo 2^8.
-        let int_8_bit = int % 2i64.pow(8);
+        // NOTE: the modulo is computed on the `f64` (where it is exact); casting to `i64` first would
+        // saturate for |number| >= 2^63.
+        let int_8_bit = number.trunc().rem_euclid(256.0) as u8;
 
         // 5. If int8bit ≥ 2^7, return 𝔽(int8bit - 2^8); otherwise return 𝔽(int8bit).
-        if int_8_bit >= 2i64.pow(7) {
-            Ok((int_8_bit - 2i64.pow(8)) as i8)
-        } else {
-            Ok(int_8_bit as i8)
-        }
+        Ok(int_8_bit as i8)
     }
 
     /// `7.1.11 ToUint8 ( argument )`
@@ -1177,13 +1173,9 @@ impl JsValue {
         }
 
         // 3. Let int be the mathematical value whose sign is the sign of number and whose magnitude is floor(abs(ℝ(number))).
-        let int = number.abs().floor().copysign(number) as i64;
-
-        // 4. Let int8bit be int modulo 2^8.
-        let int_8_bit = int % 2i64.pow(8);
-
+        // 4. Let int8bit be int modulo 2^8 (computed exactly on the `f64`, see `to_int8`).
         // 5. Return 𝔽(int8bit).
-        Ok(int_8_bit as u8)
+        Ok(number.trunc().rem_euclid(256.0) as u8)
     }
 
     /// `7.1.12 ToUint8Clamp ( argument )`
@@ -1249,17 +1241,11 @@ impl JsValue {
         }
 
         // 3. Let int be the mathematical value whose sign is the sign of number and whose magnitude is floor(abs(ℝ(number))).
-        let int = number.abs().floor().copysign(number) as i64;
-
-        // 4. Let int16bit be int modulo 2^16.
-        let int_16_bit = int % 2i64.pow(16);
+        // 4. Let int16bit be int modulo 2^16 (computed exactly on the `f64`, see `to_int8`).
+        let int_16_bit = number.trunc().rem_euclid(65536.0) as u16;
 
         // 5. If int16bit ≥ 2^15, return 𝔽(int16bit - 2^16); otherwise return 𝔽(int16bit).
-        if int_16_bit >= 2i64.pow(15) {
-            Ok((int_16_bit - 2i64.pow(16)) as i16)
-        } else {
-            Ok(int_16_bit as i16)
-        }
+        Ok(int_16_bit as i16)
     }
 
     /// `7.1.9 ToUint16 ( argument )`
@@ -1278,13 +1264,9 @@ impl JsValue {
         }
 
         // 3. Let int be the mathematical value whose sign is the sign of number and whose magnitude is floor(abs(ℝ(number))).
-        let int = number.abs().floor().copysign(number) as i64;
-
-        // 4. Let int16bit be int modulo 2^16.
-        let int_16_bit = int % 2i64.pow(16);
-
+        // 4. Let int16bit be int modulo 2^16 (computed exactly on the `f64`, see `to_int8`).
         // 5. Return 𝔽(int16bit).
-        Ok(int_16_bit as u16)
+        Ok(number.trunc().rem_euclid(65536.0) as u16)
     }
 
     /// `7.1.15 ToBigInt64 ( argument )`
